@@ -107,7 +107,13 @@ pub fn crash_oracles(report: &mut Report, case: &Value, sc: &Scenario, arch: &st
         report.oracle_fail("crash:validate-crashed", case.clone(), "validate crashed on the archive an interrupted backup left", json!(trunc(&v.result)));
     } else if !header_exists {
         report.hit("crash-state:headless-band");
-    } else if !v.result.starts_with("result ok") || !v.events.is_empty() {
+    } else if !v.result.starts_with("result ok")
+        || v.events.iter().any(|e| {
+            // a head-less directory left by an EARLIER kill in the scenario's prefix is outside C09's promise too
+            let about_headless_band = e.strip_prefix("event error band-head-missing:").and_then(|n| n.trim().parse::<u32>().ok()).map(|b| !st.get(&format!("{}/BANDHEAD", band_name(b))).map(|h| h.starts_with("head:")).unwrap_or(false)).unwrap_or(false);
+            !about_headless_band
+        })
+    {
         report.oracle_fail("crash:validate-complains", case.clone(), "validate reports errors on the archive an interrupted backup left", json!({"result": trunc(&v.result), "events": v.events.iter().take(3).collect::<Vec<_>>()}));
     }
     // 5. a later backup of the same source completes and restores exactly
